@@ -1,10 +1,14 @@
 import Driver.Proto
 import PqModel.Spec.FileCheck
+import PqModel.Spec.FileTail
 
 /-! `file.check <path> <maxRows>`: run the spec-side structural and value-level reader on a file
     on disk. `file.dump <path>`: the Dremel streams the spec reader decodes from the file, one
     column after the other (` ; ` between columns, ` ` between entries, entry = `hex/rep/def` or
-    `n/rep/def`, `-` = empty byte string, `?` = column with a codec other than none/snappy). -/
+    `n/rep/def`, `-` = empty byte string, `?` = column with a codec other than none/snappy).
+    `file.meta <path>` → `ok created_by=<hex|none> kv=<keyhex:valhex,…|-> sorting=<rg;rg;…> (rg =
+    `idx/d/n+…` or `-`) indexes=<n> layout=<agrees|differs: …>` (spec views of the footer's metadata,
+    and the page-index offsets against the mirror of writeFileFooter). -/
 namespace Driver.Ops.C02
 open PqModel.Spec
 
@@ -32,6 +36,22 @@ def handleIO (toks : List String) : IO (Option String) := do
     match dumpFile d with
     | .error e => return some s!"err {e.replace "\n" " "}"
     | .ok cols => return some s!"ok {" ; ".intercalate (cols.map columnText)}"
+  | ["file.meta", path] =>
+    let d ← try IO.FS.readBinFile path catch _ => return some "err unreadable"
+    match fileMeta d with
+    | .error e => return some s!"err {e.replace "\n" " "}"
+    | .ok m =>
+      let hx := fun (b : ByteArray) => if b.size == 0 then "-" else Driver.toHex b.toList
+      let cb := match m.createdBy with | some b => hx b | none => "none"
+      let kv := if m.kvs.isEmpty then "-" else ",".intercalate (m.kvs.map fun o => match o with
+        | some (k, v) => hx k ++ ":" ++ (match v with | some v => hx v | none => "none")
+        | none => "nokey")
+      let b01 := fun (b : Bool) => if b then "1" else "0"
+      let sorting := ";".intercalate (m.sorting.map fun scs => if scs.isEmpty then "-" else "+".intercalate (scs.map fun o => match o with
+        | some (i, dsc, nf) => s!"{i}/{b01 dsc}/{b01 nf}"
+        | none => "bad"))
+      let layout := if m.layout.isEmpty then "agrees" else "differs: " ++ " ; ".intercalate m.layout
+      return some s!"ok created_by={cb} kv={kv} sorting={sorting} indexes={m.indexes} layout={layout}"
   | _ => return none
 
 end Driver.Ops.C02
